@@ -89,6 +89,12 @@ class StandardQTomographyBasedWeightedProbabilityBasedSquaredError(
 
         self._extend_weight_matrix = np.block(block_matrix)
 
+    def set_weight_matrices(self, weight_matrices: List[np.ndarray]) -> None:
+        """sets weight matrices and rebuilds the block matrix used by the fast value/gradient."""
+        super().set_weight_matrices(weight_matrices)
+        self._extend_weight_matrix = None
+        self._calc_extend_weight_matrix()
+
     def set_prob_dists_q(self, prob_dists_q: List[np.ndarray]) -> None:
         """sets vectors of ``q``, by default None.
 
